@@ -1,6 +1,7 @@
 import DSV.Model.Filter
 import DSV.Model.Codec
 import DSV.Model.FilterParse
+import DSV.Model.Backend
 /-!
 Line-protocol driver: one request per line on stdin, one reply per line on stdout.
 First token selects the model function.  Imports only `DSV.Model.*` (core Lean), so it links natively.
@@ -155,6 +156,60 @@ def handleCodec (cmd : String) (args : List String) : String :=
       | none => "bad-op"
   | _, _ => "bad-op"
 
+/-! #### backend: range reader, retry, listing -/
+open DSV.Backend in
+def parseRngOp (t : String) : Option Op :=
+  match t.splitOn ":" with
+  | ["s", off, w] => do
+      let o ← parseInt? off
+      let wh ← match w with
+        | "set" => some Whence.set | "cur" => some Whence.cur | "end" => some Whence.fromEnd | "bad" => some Whence.bad
+        | _ => none
+      pure (.seek o wh)
+  | ["r", n] => n.toNat?.map .read
+  | ["ra"] => some .readall
+  | ["t"] => some .tell
+  | _ => none
+
+open DSV.Backend in
+def showObs : Obs × Option (Nat × Nat) → String
+  | (.err, _) => "E"
+  | (.pos p, _) => s!"P{p}"
+  | (.data st n np, none) => s!"D{st},{n},{np}"
+  | (.data st n np, some (a, b)) => s!"D{st},{n},{np}@{a}-{b}"
+
+open DSV.Backend in
+def handleBackend (cmd : String) (args : List String) : String :=
+  match cmd, args with
+  | "rng.prog", size :: pos :: ops =>
+      match size.toNat?, pos.toNat?, ops.mapM parseRngOp with
+      | some sz, some p, some prog => " ".intercalate ((runRF ⟨sz, p⟩ prog).map showObs)
+      | _, _, _ => "bad-op"
+  | "retry.run", m :: as =>
+      let parseA (t : String) : Option Attempt :=
+        if t = "T" then some .transient else if t = "P" then some .permanent else if t = "N" then some .nonRetryable
+        else if t.startsWith "S" then (t.drop 1).toString.toNat?.map .success else none
+      match m.toNat?, as.mapM parseA with
+      | some mx, some l =>
+          match retry mx l with
+          | (.ok v, n) => s!"ok {v} {n}"
+          | (.raiseTransient, n) => s!"raiseT {n}"
+          | (.raisePermanent, n) => s!"raiseP {n}"
+          | (.raiseOther, n) => s!"raiseO {n}"
+          | (.unspecified, n) => s!"unspec {n}"
+      | _, _ => "bad-op"
+  | _, dir :: files =>
+      if cmd = "ls.raw" ∨ cmd = "ls.dir" ∨ cmd = "ls.local" then
+        let parsePath (t : String) : Option Path :=
+          if t = "." then some [] else (t.splitOn "/").mapM fun c => (pctDecode c).map String.toList
+        match parsePath dir, files.mapM parsePath with
+        | some d, some fs =>
+            let out := if cmd = "ls.raw" then listS3Raw fs d else if cmd = "ls.dir" then listS3Dir fs d else listLocal fs d
+            if out.isEmpty then "-" else " ".intercalate (out.map fun p => String.ofList (joinPath p))
+        | _, _ => "bad-op"
+      else "bad-op"
+  | _, _ => "bad-op"
+
 def handle (line : String) : String :=
   match splitWs line with
   | [] => "bad-op"
@@ -162,6 +217,7 @@ def handle (line : String) : String :=
     if cmd = "flt.compile" then handleCompile args
     else if cmd.startsWith "flt." then handleFilter cmd args
     else if cmd.startsWith "codec." then handleCodec cmd args
+    else if cmd.startsWith "rng." || cmd.startsWith "retry." || cmd.startsWith "ls." then handleBackend cmd args
     else "bad-op"
 
 partial def loop (h : IO.FS.Stream) (out : IO.FS.Stream) : IO Unit := do
